@@ -1481,6 +1481,28 @@ class Engine:
     return elts, iters
 
   def ev_ListComp(self, e, st, func):
+    # over a literal tuple / list of known elements the comprehension is
+    # unrolled: element k of the result is the expression for element k
+    # (`u, v = (f(p) for p in (u, v))` keeps the two values apart)
+    if len(e.generators) == 1 and not e.generators[0].ifs and \
+            not isinstance(e, ast.SetComp):
+      g = e.generators[0]
+      probe = st.copy()
+      itv = self.eval(g.iter, probe, func)
+      if itv.elts is not None and 0 < len(itv.elts) <= 8 and itv.ty != 'set':
+        outs = []
+        for x in itv.elts:
+          work = st.copy()
+          self.assign(g.target, x, work, func, g)
+          outs.append(self.eval(e.elt, work, func))
+          for k, v in work.vars.items():
+            if is_heap(k):
+              st.vars[k] = v
+          st.aux = work.aux
+        r = V(None, elts=tuple(outs), ty='list')
+        r.d = self.dom.list(outs, e, st) if not isinstance(
+            e, ast.GeneratorExp) else self.dom.tuple(outs, e, st)
+        return r
     elts, iters = self._comp(e, [e.elt], st, func)
     return V(self.dom.comprehension(elts[0], iters, e, st), ty='list')
 
